@@ -9,6 +9,10 @@ R-CVCONV   build_qualified_type composed with the writer: DW_TAG_const_type / vo
 R-VARIADIC build_function_type, per kind of child DIE: a DW_TAG_formal_parameter yields a parameter built with
            variadic_marker=false, a DW_TAG_unspecified_parameters one built with variadic_marker=true, any other child
            yields none.
+R-VARIADICNAME the textual signature of a function-type DIE (die_return_and_parm_names_from_fn_type_die) is a lookup key of
+           the reader: function types already built are found again by it.  In its DW_TAG_unspecified_parameters arm an
+           element is appended to the parameter names unconditionally, so that `int (const char*, ...)` and
+           `int (const char*)` never share a key.
 R-RETVOID  build_function_type: without DW_AT_type the return type is the void type
            (build_ir_node_for_void_type), with it the type built from that DIE.
 R-PARMKEEP build_function_type: every DW_TAG_formal_parameter child contributes a parameter - no path through that arm
@@ -31,10 +35,11 @@ def run(ctx):
     ctx.clause = ("each kind of DIE of a function description becomes the matching piece of signature: the three qualifier "
                   "tags map to the qualifiers the writer spells with the same names, a formal parameter gives a plain "
                   "parameter, unspecified parameters give the variadic marker, a missing DW_AT_type gives void")
-    ctx.rules = ["R-CVCONV", "R-VARIADIC", "R-RETVOID", "R-PARMKEEP"]
+    ctx.rules = ["R-CVCONV", "R-VARIADIC", "R-VARIADICNAME", "R-RETVOID", "R-PARMKEEP"]
     P = ctx.program(UNITS)
     check_cv(ctx, P)
     check_fn(ctx, P)
+    check_variadic_name(ctx, P)
     ctx.assume("which DIEs exist and what they refer to (the types themselves, typedef chains, names) is read from the debug "
                "info at run time; the documented normalisations (const reference, const void) are value-level")
 
@@ -231,3 +236,32 @@ def _attr(f, call):
             if (y.get("m") or "").startswith("DW_AT_"):
                 return y["m"]
     return None
+
+
+
+def check_variadic_name(ctx, P):
+    fs = [f for f in P.all_funcs() if f.n == "die_return_and_parm_names_from_fn_type_die" and not f.dep and f.cfg() is not None]
+    if len(fs) != 1:
+        raise AnalysisBroken("anchor vanished: die_return_and_parm_names_from_fn_type_die")
+    f = fs[0]
+    ctx.analysed(f)
+    arms = [s for s in f.nodes() if s["k"] == "IfStmt" and s["c"][0] is not None and _tagname(f, s["c"][0]) == "DW_TAG_unspecified_parameters"
+            and len(s["c"]) > 1 and s["c"][1] is not None]
+    if not arms:
+        raise AnalysisBroken("anchor vanished: the DW_TAG_unspecified_parameters arm of die_return_and_parm_names_from_fn_type_die")
+    arm = arms[0]
+    names_p = [p for p in f.r["params"] if (f.unit.decl(p) or {}).get("n") == "parm_names"]
+    pushes = [x for x in walk(arm["c"][1]) if x["k"] == "CXXMemberCallExpr" and (f.decl(x) or {}).get("n") in ("push_back", "emplace_back") and
+              (not names_p or any(y["k"] == "DeclRefExpr" and y.get("d") == names_p[0] for y in walk(member_call_object(x))))]
+    uncond = []
+    for p in pushes:
+        conds = [a for a in f.ancestors(p) if a["k"] in ("IfStmt", "ConditionalOperator", "ForStmt", "WhileStmt", "SwitchStmt") and
+                 a is not arm and any(z is a for z in walk(arm["c"][1]))]
+        if not conds:
+            uncond.append(p)
+    ok = bool(uncond)
+    ctx.ob("R-VARIADICNAME", "the signature string of a function type always names its unspecified parameters", ok,
+           f.loc(uncond[0]) if uncond else f.loc(arm),
+           "`%s` runs for every DW_TAG_unspecified_parameters child" % expr_str(f, uncond[0])[:60] if ok else
+           "in the DW_TAG_unspecified_parameters arm nothing is appended unconditionally: a variadic function type can get the "
+           "signature string of its non-variadic twin, and the type built for one is handed out for the other")
